@@ -20,7 +20,7 @@ TABLE = {
     "C15": {
         "text": "Invalidation obligations: every writer of a setting the cell-size cache depends on resets the cache under its lock on all normal paths; every "
                 "query-derived memo (decorator-based or hand-rolled, found through the call graph to query_terminal) is invalidated by enable_queries(); memo "
-                "decorators do lookup+call+store under one RLock; get_cell_size stores under the key it compared on every computing path; FIXED snapshots, DYNAMIC recomputes.",
+                "decorators do lookup+call+store under one RLock; get_cell_size stores under the key it compared on every computing path; FIXED snapshots, DYNAMIC recomputes. Each value stored by terminal_size_cached carries its own terminal-size stamp; the key of utils.cached identifies the call.",
         "note": _NOTE + " Values after a concrete resize history are runtime data and are not decided. Three recorded known findings (K5).",
         "technique": "must-pass-through on the CFG (toggle -> cache reset), call-graph reachability to query_terminal for memo discovery, lock-scope containment",
     },
@@ -28,7 +28,7 @@ TABLE = {
         "text": "The acceptance set of a format specifier is decided exactly, for strings of every length: the regex literals and the boolean "
                 "combination are read from the syntax tree, compiled to DFAs and compared (product automaton) with the documented grammar; plus group/unpack "
                 "agreement, default-table agreement with draw(), per-style table agreement (patterns, _style_args, renderer parameters), anchoring of the style "
-                "field parser and absence of side effects in the checking functions.",
+                "field parser and absence of side effects in the checking functions. Decimal fields are unbounded in length (regex AST); a memoised parser's result is not mutated one hop away; the checkers are called through the image's own class.",
         "note": _NOTE + " The style sub-grammar acceptance is decided as table/anchoring agreement, not as a language. Non-ASCII category members are represented by sample code points.",
         "technique": "regular-language algebra on constant-folded regex sources (re._parser -> NFA -> DFA product, shortest witness), group-to-use tracing with case specialisation of the traced expressions, table agreement, effect query",
     },
@@ -36,7 +36,7 @@ TABLE = {
         "text": "Resolution instance -> class -> default is Python attribute lookup provided override cells are written correctly; the rules decide exactly that: "
                 "unset paths delete the receiver's own cell and never store (except the default-defining class), setters store only the receiver's cell after "
                 "validation on every accepted path, getters read through the instance/class, class-only settings have getter-only instance properties, the "
-                "native-animation limit has a single metaclass cell, and the two forms of set_render_method validate identically.",
+                "native-animation limit has a single metaclass cell, and the two forms of set_render_method validate identically. While a descriptor tests the truth value of the instance, no image class defines __bool__/__len__.",
         "note": _NOTE + " Python's MRO attribute lookup is trusted; results for arbitrary subclass trees follow from it given R1-R6.",
         "technique": "who-may-write / delete-vs-store discipline on override cells, must-pass-through and validate-before-store on the CFG, sibling agreement",
     },
@@ -44,14 +44,14 @@ TABLE = {
         "text": "Crash points are covered by path rules, not enumerated: every HIDE_CURSOR write is inside a try whose finally shows the cursor under an implied "
                 "condition; every render-output write in a draw path is inside a try whose handlers certainly catch the required interruption classes and call the "
                 "style's interrupted-draw hook on all handler paths; graphics styles' hooks emit ST*2 (+ end-of-chunk) flushed; frame position, dynamic size, "
-                "iterator and render data are restored/closed in finally blocks covering every frame render; animations swallow Ctrl-C, still draws re-raise.",
+                "iterator and render data are restored/closed in finally blocks covering every frame render; animations swallow Ctrl-C, still draws re-raise. The flush that delivers a frame lies inside the protected try of its write.",
         "note": _NOTE + " Clean-up code is treated as atomic (the property stops at 'before its own clean-up starts'). Partial-write byte cuts and terminals' recovery after ST are device behaviour, not decided.",
         "technique": "pairing / lexical protection by try-finally, handler-class coverage (must-catch sets) of every write, wait and frame step, must-call on the handler CFG, class-hierarchy exhaustiveness, termios save/modify/restore discipline (shared with C13)",
     },
     "C10": {
         "text": "Must-finalize with ownership on a CFG with exceptional edges (single-fault leak-point analysis): for every statement at which a fault can occur "
                 "after render data was created, the data is finalized or was handed over before the function is left; once-flag shape of finalize()/close(); "
-                "iterator handlers close before raising; caller-owned data follows the finalize parameter; no generator step after finalization.",
+                "iterator handlers close before raising; caller-owned data follows the finalize parameter; no generator step after finalization. The closed flag is dominated by the finalize decision on every path, exceptional ones included.",
         "note": _NOTE + " 'Exactly once' as a count over histories is reduced to once-flag + must-finalize; garbage-collection timing is not modelled. One recorded known finding (K4c).",
         "technique": "typestate / must-release dataflow on a statement CFG with exceptional edges, flag-specialised on the ownership parameter; dominance checks; who-may-call table for finalize() with ownership guard",
     },
@@ -59,7 +59,7 @@ TABLE = {
         "text": "The laws behind the property as effects and agreements over all methods: no non-constructor method of the immutable classes stores to an existing "
                 "object or calls a mutator on a non-fresh container; shared default tables are only ever bound to MappingProxyType over freshly built mappings; the "
                 "interning conditions of __new__ and __init__ agree and both early returns dominate the single (re)initialisation; precedence is the order of three "
-                "writes with the compatibility test before each write; hash cells are a subset of eq cells; metaclass rejections precede class creation.",
+                "writes with the compatibility test before each write; hash cells are a subset of eq cells; metaclass rejections precede class creation. __hash__ does not test identity; the render class of a set is never looked up in a namespace table; update/convert/to_render_args pass all inputs on unfiltered.",
         "note": _NOTE + " Outcomes for arbitrary class trees (metaclass execution) are not decided.",
         "technique": "effect/freshness analysis per method, who-may-bind tables, dominance by statement order, sibling-condition agreement, hash/eq cell-set inclusion",
     },
@@ -75,14 +75,14 @@ TABLE = {
         "text": "Per-operation invariants every history relies on: closed-guard first; validate-before-mutate (no raise reachable after a state store); settings read at "
                 "the point of use after the dummy yield (no local/parameter snapshots; first frame number read from frame_offset after the yield); the iterator uses only "
                 "four attributes of the renderable and writes none; sibling seek rules agree and every accepted seek is recorded on all non-raising paths; the padded size "
-                "is recomputed from the stored padding and current size; cached frames are stored unpadded.",
+                "is recomputed from the stored padding and current size; cached frames are stored unpadded. A validating RenderArgs(...) construction counts as validation (no store to self.* before it).",
         "note": _NOTE + " The frame sequence / loop countdown for an arbitrary operation history is a state-machine question over runtime counters - not decided.",
         "technique": "dominance and reachability on the CFG (validate-before-mutate, must-record), reaching-definition / snapshot scan, who-may-use and who-may-write tables for every state cell, sibling agreement, finite-domain decision of the seek rejection predicate",
     },
     "C09": {
         "text": "Cache-key coverage as table agreement: the set of cells that control methods can change (discovered from the setters) intersected with the inputs of "
                 "_render_ must appear in the compared key, and stored details equal compared details; the cache index is the rendered frame number; padded frames are never "
-                "stored; a hit renders nothing; cache switch (INDEFINITE, bool, frame_count<=cache, loops==1); ImageIterator stores a fresh size hash after each render.",
+                "stored; a hit renders nothing; cache switch (INDEFINITE, bool, frame_count<=cache, loops==1); ImageIterator stores a fresh size hash after each render. Every render made while caching is on is stored (the store has no condition of its own beyond the caching switch).",
         "note": _NOTE + " Relational equivalence of cached and uncached runs over all histories is not decided.",
         "technique": "writer-table vs reader-table agreement (mutable cells vs cache key), miss condition as the disjuncts of its traced truth value (negation normal form through conditional expressions), per-entry validity on traced expressions, inventory of per-frame stores, CFG reachability (no store after padding), finite-domain decision of the cache switch, def-use of the size hash",
     },
@@ -106,7 +106,7 @@ TABLE = {
         "text": "Request/stop-predicate/drain/parser agreement at every query_terminal call site (DA1 sentinel last; complete vs prefix predicate by reply alphabet; "
                 "prefix reads drained inside the same lock block; flush only before the request); request Ps <-> response Ps tables; response regexes' languages decided "
                 "exactly by DFA equality on constant-folded patterns; swap applies to every source of the text-area size; per-component colour scaling; fallbacks "
-                "(disabled -> None first, guarded responses, bounded reads); style preference table and support rules.",
+                "(disabled -> None first, guarded responses, bounded reads); style preference table and support rules. The environment is only the fallback for a missing XTVERSION reply; the key of utils.cached identifies the call (args and kwargs.items()).",
         "note": _NOTE + " Reply timing, select behaviour and byte-stream splits are schedules over a device - not decided.",
         "technique": "sibling call-site agreement, constant folding + regular-language equality of response patterns, traced condition sets of the support decisions decided on finite abstract domains, CFG dominance (swap covers all sources), def-use of the colour scale",
     },
@@ -114,14 +114,14 @@ TABLE = {
         "text": "The structural core of the run-length state machine: the run-boundary predicate is canonicalised (chained comparisons -> relation sets) and must be "
                 "invariant under the upper<->lower renaming and contain the 2 colour tests + 4 alpha-transition tests; every loop-carried variable read by the flush "
                 "closure is updated after a flush; the emission branches are mirror images; the kitty workaround tests the cluster it nudges; alpha classification "
-                "(round_alpha, strict <, compositing under state-only conditions).",
+                "(round_alpha, strict <, compositing under state-only conditions). The source image is read-only (no in-place edit of img.info / palette where img can be the caller's object).",
         "note": _NOTE + " Every actual colour / alpha value (PIL resampling, compositing) is runtime data - not decided.",
         "technique": "decision of the run-boundary predicate against its specification over a finite abstract domain (648 valuations), emission truth table of update_buffer from its symbolic output shape, loop-carried state completeness, must-order on the CFG (convert before resize, seek iff animated), guard-set analysis, memo safety",
     },
     "C04": {
         "text": "Necessary structure of the sizing code: every return of _valid_size clamps both dimensions with `or 1`; unit conversions are inverse pairs sharing one "
                 "unit source per axis with _get_render_size; dynamic sizes are re-evaluated on every access, never memoised, restored after rendering, with a closed set "
-                "of writers; every Size member is handled; AUTO tests exactly ORIGINAL's pixel size; the two FIT branches mirror each other under width<->height.",
+                "of writers; every Size member is handled; AUTO tests exactly ORIGINAL's pixel size; the two FIT branches mirror each other under width<->height. One rounding per derived dimension (a helper whose result is scaled and rounded returns it unrounded); every accepted size is stored on every non-raising path of the size setter / set_size.",
         "note": _NOTE + " The fit/fill/aspect inequalities (float rounding over five quantities) need a relational numeric domain or a solver - NOT decided by this family.",
         "technique": "return-shape rule, inverse-pair agreement on traced unit expressions, sibling agreement by unification (width<->height renaming found, not assumed), who-may-write / who-may-cache query, enum exhaustiveness, memo safety",
     },
@@ -129,7 +129,7 @@ TABLE = {
         "text": "The cursor bookkeeping is arithmetic over symbols, decided as an affine computation: each write in the animation drivers is mapped to a row displacement "
                 "polynomial (frame of h lines: h-1; newline: 1; cursor_up(e): -e; ...); obligations: loop iteration row-neutral, after the first frame at the top of the "
                 "render region, on normal completion on the last line of the padded region (then exactly one newline). Plus operand signs, validate-before-write with the "
-                "documented width/height/scroll predicate, complementary version predicates for per-frame clearing.",
+                "documented width/height/scroll predicate, complementary version predicates for per-frame clearing. The size predicate of _init_render_ and kitty's clear/blend predicates are decided by evaluation on finite domains (tuples ordered lexicographically, as Python does).",
         "note": _NOTE + " What a terminal does with the bytes (scrolling at the bottom, margins) is not decided. One recorded known finding (K1, old API ends `lines` rows too low).",
         "technique": "affine dataflow of the cursor row over a transfer table applied to traced write expressions (polynomial normal forms over render size and padding margins), sign analysis, guard-conjunct analysis, order/dominance checks (nothing written before validation)",
     },
@@ -137,14 +137,14 @@ TABLE = {
         "text": "Ownership discipline of PIL images with few named primitives: who-may-close (only fresh objects, or through _close_image which spares the source), "
                 "must-release on every normal path of every renderer (CFG), release-before-rebind with finally for the declared-fallible steps, iterator bookkeeping "
                 "(seek position set before each render and reset at both ends of pass, image recorded/released, generators owning images never overwritten), builtin "
-                "open() always in a with, temp copy created after successful construction and removed on failed write.",
+                "open() always in a with, temp copy created after successful construction and removed on failed write. No use after release (typestate over the CFG); no seek request is lost between two yields of ImageIterator._animate.",
         "note": _NOTE + " Frame equality with direct formatting, tell() under arbitrary seeks and HTTP behaviour are not decided; exceptional paths other than the declared-fallible ones rely on CPython reference counting. Two recorded known findings (K2a/K2b).",
         "technique": "ownership / must-release typestate on the CFG, freshness analysis for close sites, dominance (mkstemp after construction), call-order checks",
     },
     "C17": {
         "text": "Only the structural clauses: rows() and render() take the same decision from the same _valid_size inputs; the row assembly order (reset between image and "
                 "right padding), backward colour recovery up to the last 'm', fast path only without horizontal trim; the canvas uses its recorded image size and the same "
-                "centre split as _format_render; _ti_calc_trim's results equal the interval-intersection specification on every feasible path (proved per path by linear arithmetic).",
+                "centre split as _format_render; _ti_calc_trim's results equal the interval-intersection specification on every feasible path (proved per path by linear arithmetic). Every yielded row is a fresh object.",
         "note": _NOTE + " The byte content of the trimmed lines (trimmed canvas == crop of the full canvas, cell for cell) is runtime data and is NOT decided; the arithmetic of the region (_ti_calc_trim) is.",
         "technique": "agreement of rows() and render() as traced expressions per case (FIT/AUTO), padding split via the traced arguments of _ti_calc_trim specialised per alignment, symbolic output shape of _format_render, row-assembly order by content, who-may-read query on the live image; path enumeration of _ti_calc_trim with Fourier-Motzkin infeasibility / entailment per specification case (tiv/linarith.py)",
     },
@@ -152,7 +152,7 @@ TABLE = {
         "text": "Synchronized-update bracket (BEGIN immediately before a try whose finally writes END and flushes, all output inside), delete-before-draw through the buffered "
                 "stream, view identity includes every geometric component unpacked from the canvas view, views updated on every inspecting path (CFG), clear on "
                 "start/stop/clear with a disguise change on every path, single z-index allocator accessed via __class__ with overflow test and successor function, "
-                "frozenset kind of _ti_image_cviews, lock-decorated I/O overrides.",
+                "frozenset kind of _ti_image_cviews, lock-decorated I/O overrides. A delete-all runs at most once per pass; shard tails are aged after the last view of each shard.",
         "note": _NOTE + " Which placements a layout history leaves on the terminal depends on shard geometry at run time - not decided.",
         "technique": "pairing (bracket) rule, must-pass-through on the CFG, key-completeness (unpacked components subset of key), who-may-write on allocator state, kind check",
     },
